@@ -180,7 +180,7 @@ func varintCands(b []byte, segs [][2]int) []int {
 	var c []int
 	for _, s := range segs {
 		p, l := s[0], s[1]
-		if p >= len(b) {
+		if p < 0 || p >= len(b) {
 			continue
 		}
 		switch {
@@ -203,6 +203,9 @@ func (m *mutState) replace(p, oldLen int, repl []byte) {
 				m.segs[i][1] = len(repl)
 			} else if m.segs[i][0] > p {
 				m.segs[i][0] += d
+				if m.segs[i][0] <= p {
+					m.segs[i] = [2]int{len(nb), 0} // the segment lay inside the replaced range: retire it
+				}
 			}
 		}
 	}
@@ -292,7 +295,7 @@ func (m *mutState) apply(k *kind, mu Mut) {
 	case "bool":
 		var cands []int
 		for _, s := range m.segs {
-			if s[1] == 1 && s[0] < len(b) && b[s[0]] <= 1 {
+			if s[1] == 1 && s[0] >= 0 && s[0] < len(b) && b[s[0]] <= 1 {
 				cands = append(cands, s[0])
 			}
 		}
@@ -306,7 +309,7 @@ func (m *mutState) apply(k *kind, mu Mut) {
 		// Replace a compressed public key (02/03 + 32 bytes written as one primitive) by its uncompressed form.
 		var cands []int
 		for _, s := range m.segs {
-			if s[1] == 33 && s[0]+33 <= len(b) && (b[s[0]] == 2 || b[s[0]] == 3) {
+			if s[1] == 33 && s[0] >= 0 && s[0]+33 <= len(b) && (b[s[0]] == 2 || b[s[0]] == 3) {
 				cands = append(cands, s[0])
 			}
 		}
@@ -871,18 +874,29 @@ func oracleBytes(k *kind, in []byte, expectReject, origin string, o *vt.Obs) err
 	// to centuries and cannot be interrupted from inside the process, so the case is reported without running it.
 	if k.guard != nil {
 		n := k.guard(in)
-		if n > 1<<22 {
-			if e := vd.fail("hang/"+fam, "%s: the decoder's work is driven by a number in the input alone: this %d-byte input makes it run for %d steps (not executed; found as a hang of the harness, see C17_TRACE); input %x",
-				k.name, len(in), n, shortB(in)); e != nil {
-				return e
-			}
-			return nil
-		}
 		if n > 1<<16 && !probing && (vt.Known("hang/"+fam) || vt.Known("alloc/"+fam)) {
 			// Recorded: do not spend seconds and hundreds of MiB on re-confirming it in every such case.
 			_ = vd.fail("hang/"+fam, "")
 			_ = vd.fail("alloc/"+fam, "")
 			return nil
+		}
+		if n > 1<<22 {
+			// Not executed as it is. A surrogate with the count clamped to 2^22 is: when that already breaks the
+			// allocation bound the original (same code path, a larger count) is reported; when the surrogate is
+			// harmless (the loop is bounded by something else) the original is executed below like any input.
+			sur := k.clamp(in)
+			var s1, s2 runtime.MemStats
+			runtime.ReadMemStats(&s1)
+			_, _, serr := safeDec(k, sur)
+			runtime.ReadMemStats(&s2)
+			var spe *panicError
+			if sa := s2.TotalAlloc - s1.TotalAlloc; sa > uint64(allocConst+allocPerByte*len(sur)) || errors.As(serr, &spe) && false {
+				if e := vd.fail("hang/"+fam, "%s: the decoder's work is driven by a number in the input alone: this %d-byte input asks for %d steps; not executed (found as a hang of the harness, see C17_TRACE). "+
+					"Surrogate with the number clamped to 2^22 (%d bytes): allocated %d bytes, error=%v; input %x", k.name, len(in), n, len(sur), sa, serr != nil, shortB(in)); e != nil {
+					return e
+				}
+				return nil
+			}
 		}
 	}
 	var m1, m2 runtime.MemStats
@@ -968,26 +982,36 @@ func oracleBytes(k *kind, in []byte, expectReject, origin string, o *vt.Obs) err
 	if !canonical {
 		nkey = noncanonKey(k, v)
 	}
-	if k.size != nil {
-		if s, ok := k.size(v); ok && s != len(e1) {
-			key := nkey
-			if canonical {
-				key = sizeKey(k, v, s, e1)
-			}
-			if e := vd.fail(key, "%s: value decoded from %d bytes reports size %d, its encoding has %d bytes; input %x; canonical %x", k.name, n, s, len(e1), shortB(in), shortB(e1)); e != nil {
-				return e
-			}
-		}
-	}
 	v2, n2, err := safeDec(k, e1)
 	if err != nil {
-		if e := vd.fail("reenc/"+fam, "%s: re-encoding of an accepted value is rejected: %v; input %x; re-encoding %x", k.name, err, shortB(in), shortB(e1)); e != nil {
+		key := "reenc/" + fam
+		if k.decFailKey != nil && !errors.As(err, &pe) {
+			if kk := k.decFailKey(v, e1, err); kk != "" {
+				key = kk
+			}
+		}
+		if e := vd.fail(key, "%s: re-encoding of an accepted value is rejected: %v; input %x; re-encoding %x", k.name, err, shortB(in), shortB(e1)); e != nil {
 			return e
 		}
 		return nil
 	}
 	if n2 != len(e1) {
 		return fmt.Errorf("%s: decoder consumed %d of %d bytes of a re-encoding", k.name, n2, len(e1))
+	}
+	if k.size != nil {
+		s0, ok0 := k.size(v)
+		s2, ok2 := k.size(v2)
+		switch {
+		case ok2 && s2 != len(e1):
+			// the value decoded from its own canonical encoding misreports its size: a defect of Size() itself
+			if e := vd.fail(sizeKey(k, v2, s2, e1), "%s: value reports size %d, its encoding has %d bytes; input %x; canonical %x", k.name, s2, len(e1), shortB(in), shortB(e1)); e != nil {
+				return e
+			}
+		case ok0 && s0 != len(e1):
+			if e := vd.fail(nkey, "%s: value decoded from %d bytes reports size %d, its encoding has %d bytes (size taken from the received bytes); input %x; canonical %x", k.name, n, s0, len(e1), shortB(in), shortB(e1)); e != nil {
+				return e
+			}
+		}
 	}
 	if d2 := k.dump(v2); d2 != d0 {
 		return fmt.Errorf("%s: value changes when re-encoded and decoded again: %s; input %x", k.name, firstDiff(d2, d0), shortB(in))
